@@ -125,6 +125,32 @@ def run_chains(ctx: Ctx):
             y = system.predict(xn)
         except Exception as e:
             ctx.violate('C04:predict-raises', f'{type(e).__name__}: {e}', case); continue
+        # functional correspondence: Model/Sys.v eval with EXACT surrogates (Model/SysRun.v: norm_out o model o denorm_in on normalised
+        # values) on the same normalised inputs - the executable form of C04_chain_exact; minmax chains are the recorded finding F6
+        if norm != 'minmax':
+            import c16
+            names = [f'x{k}' for k in range(depth)] + [f'u{k}' for k in range(depth)]
+            num = {v: i for i, v in enumerate(names)}
+            vobj = {str(v): v for v in system.variables()}
+            tab = []
+            for v in names:
+                ch, hy = c16.model_chain(vobj[v]) if vobj[v].norm else ([], [[], []])
+                tab.append([ch, hy])
+            mcomps = []
+            for k in range(depth):
+                sp = specs[k]; a, b = Fraction(sp['a']), Fraction(sp['b'])
+                # a (x - L)^2 + b (x - L) + c u + d/4 u^2, expanded in (x, u)
+                nin = 2 if k else 1
+                ex = lambda i, j_: [i, j_][:nin]
+                poly = [[q(a), ex(2, 0)], [q(b - 2 * a * L), ex(1, 0)], [q(a * L * L - b * L), ex(0, 0)]]
+                if k:
+                    poly += [[q(Fraction(sp['c'])), ex(0, 1)], [q(Fraction(sp['d'], 4)), ex(0, 2)]]
+                mcomps.append([k, [num[f'x{k}']] + ([num[f'u{k - 1}']] if k else []), [num[f'u{k}']], [poly], 0])
+            for j in range(min(NS, 5)):
+                env0 = [[num[f'x{k}'], 1, q(Fraction(float(xn[f'x{k}'][j])))] for k in range(depth)]
+                ask = [num[f'u{k}'] for k in range(depth)]
+                ctx.flines.append('sys_eval ' + enc([tab, mcomps, list(range(depth)), env0, ask, ask]))
+                ctx.fmeta.append(({**case, 'sample': j}, [float(np.ravel(system.outputs()[f'u{k}'].denormalize(np.asarray(y[f'u{k}'])))[j]) for k in range(depth)]))
         for j in range(NS):
             u = Fraction(0)
             for k in range(depth):
@@ -231,6 +257,16 @@ def run(ctx: Ctx):
                 'update_bounds and estimate_bounds on/off, trained to exhaustion and compared with the exact composition (Fractions); affine feedback '
                 'loops of 2-3 members with narrow / offset guesses versus the exact linear solve; Lagrange.refine with a domain that changes between two '
                 'refinements versus Model/Lagr.v refine1 and the interpolation polynomial; non-trivial = depth >= 2 / a grid that grows while the domain changes')
+    ctx.flines, ctx.fmeta = [], []
     run_weights(ctx)
     run_chains(ctx)
     run_loops(ctx)
+    for (case, yimpl), mo in zip(ctx.fmeta, run_model(ctx.flines, shards=8) if ctx.flines else []):
+        ctx.count('chain_evaluations_compared')
+        if isinstance(mo, ModelError):
+            ctx.disagree('C04:model-error', case, str(mo), None); continue
+        if not mo or any(not v for v in mo[0]):
+            ctx.disagree('C04:System.predict (exact surrogates)', case, 'model evaluation stuck', yimpl); continue
+        mv = [unq(v[0]) for v in mo[0]]
+        if any(not (a == a and abs(Fraction(a) - m) <= Fraction(1, 10 ** 7) * (abs(m) + 10)) for a, m in zip(yimpl, mv)):
+            ctx.disagree('C04:System.predict (exact surrogates)', case, [float(m) for m in mv], yimpl)
